@@ -133,6 +133,8 @@ def run(ctx):
                             "clean-channel receiver abandon the object): " + c08.R1_TEXT + "; " + c08.R5_TEXT, "DEP with listed idioms + decision table (shared with C08.R1 / C08.R5)")
     c08.close_flag_window_rule(ctx, r8)
     c08.source_symbol_rule(ctx, r8)
+    from . import c07
+    c07.z_range_rule(ctx, ctx.rule("C01.R10", c07.Z_TEXT, "E4 range of the written value vs the reader's refusal (shared with C07.R5)"))
     from . import c03
     c03.byte_accounting(ctx, ctx.rule("C01.R6", c03.BYTES_TEXT, "WWF + value shape + DOM"))
     metadata_flow_receiver(ctx, ctx.rule("C01.R4r", "receiver: each metadata field of ObjectReceiver assigned in attach_fdt "
